@@ -682,13 +682,13 @@ def _child_expr(node, skip=()):
     return [k for k in node.children if k.is_named and k.type != "comment" and k.type not in skip]
 
 
-def find_target(tree: Tree):
+def find_target(tree: Tree, follow_names: bool = True):
     """Walk wrappers syntactically down to the attribute set an edit addresses.
 
     Returns (set node or None, [let nodes enclosing it, outermost first], wrapper kinds).
     Follows: function body, let body, with body, assert body, parentheses, last
-    call argument.  Does not follow identifiers (those cases are handled by the
-    reference model that knows the generated document)."""
+    call argument, and a name that an enclosing let binds to a set literal (then no let counts as a
+    layer of the target: scope selectors are not modelled for such documents)."""
     tops = top_expressions(tree)
     if len(tops) != 1:
         return None, [], []
@@ -721,6 +721,36 @@ def find_target(tree: Tree):
         elif t == "apply_expression":
             kinds.append("call")
             node = node.children[-1]
+        elif t == "variable_expression" and follow_names:
+            # a name bound by an enclosing let to a set literal (possibly through another such name): Nix designates
+            # the innermost enclosing let that binds it; anything else (formals, with, inherit) is not followed
+            name = tree.s(node)
+            target = None
+            for hop in range(4):
+                found = None
+                for ln in reversed(lets):
+                    for b in _binding_items(ln):
+                        if b.type != "binding":
+                            continue
+                        ap = next(k for k in b.children if k.type == "attrpath")
+                        segs = [k for k in ap.children if k.type not in (".", "comment")]
+                        if len(segs) == 1 and segs[0].type == "identifier" and tree.s(segs[0]) == name:
+                            found = next((k for k in b.children if k.type not in ("attrpath", "=", ";", "comment")), None)
+                            break
+                    if found is not None:
+                        break
+                if found is None:
+                    break
+                if found.type in ("attrset_expression", "rec_attrset_expression"):
+                    target = found
+                    break
+                if found.type != "variable_expression":
+                    break
+                name = tree.s(found)
+            if target is None:
+                return None, lets, kinds
+            kinds.append("alias")
+            return target, [], kinds
         else:
             return None, lets, kinds
 
